@@ -7,13 +7,13 @@ PROP = {
     "level": "proof",
     "technique": "Coq proof that the Map encoder model is invariant under every permutation of every entry list (= every Go hash-iteration order), "
                  "that its output is ordered (attributes strictly ascending, sibling elements ascending, at every depth) and that the indented root rule "
-                 "agrees with the compact one except on one stated shape; model of the Json post-processing, Writer and Maps string/file forms (concatenation theorems; refutation "
+                 "agrees with the compact one except on one stated shape; model of Map.Json/JsonIndent on top of encoding/json's Encoder and Indent, of the Writer forms and of the Maps string/file forms (concatenation theorems; refutation "
                  "witness for JsonStringIndent's newline separator); model/implementation correspondence by vm_compute on Maps rebuilt with other insertion orders and "
                  "capacities; byte-level Go-side oracle over all 24 encoder entry points",
     "design_ref": "DESIGN.md section 3 (Go maps are association lists), section 6 C16, section 10",
     "assumptions": XML_ASSUME[2:] + [
         "a Go map is modelled as an association list whose order stands for the hash-iteration order of one run; 'however the Map was built' = every permutation of every entry list at every depth (veq), with pairwise distinct keys (wf)",
-        "encoding/json is the environment: it writes map keys in sorted order (explicit hypothesis of C16_json_perm_invariant; observed by the oracle on every run); Map.Json/JsonIndent are modelled as a function of the bytes json.Marshal/MarshalIndent returned",
+        "encoding/json is the environment: it writes map keys in sorted order (explicit hypothesis of C16_json_perm_invariant; observed by the oracle on every run); Map.Json/JsonIndent are modelled as a function of the bytes json.Encoder.Encode wrote under SetEscapeHTML(safe) (minus the final newline; JsonIndent = json.Indent of them), as json.go does after fix b2598e9",
         "io.Writer sinks obey the io.Writer contract (no short write without an error); os.File and the file system are the environment",
         "indentation is not modelled as bytes: XmlIndent writes the items of map_xml_indent_items with blanks between them; tied by the run with prefix = indent = \"\" (newlines removed) and, for every other blank prefix/indent, by the token-stream oracle",
         "the MapSeq encoder is covered by the Go-side oracle only (its model belongs to the C04 check; the place for the Coq theorem is marked in Props/C16.v)",
